@@ -182,7 +182,7 @@ impl Check for C15 {
         true
     }
     fn units(&self, tier: Tier) -> Vec<Unit> {
-        vec![Unit::gen("lists", 16, tier.pick(120, 3500))]
+        vec![Unit::gen("lists", 16, tier.pick(500, 5000))]
     }
     fn required_classes(&self, _tier: Tier) -> Vec<&'static str> {
         vec!["outcome:ok", "outcome:failed", "inputs_before_failure:0", "inputs_before_failure:1", "inputs_before_failure:3", "earlier_output_below_stdout_buffer", "earlier_output_above_stdout_buffer", "stdout:Pipe", "stdout:File"]
